@@ -30,12 +30,26 @@ type solverSpec struct {
 	pre  string
 }
 
+// Quantifier instantiation is heuristic, so several configurations are raced
+// per obligation; only `unsat` (discharged) or `sat` (counterexample) decide.
 var solvers = []solverSpec{
 	{"z3", func(f string, t int) []string { return []string{"z3", fmt.Sprintf("-T:%d", t), f} }, ""},
 	{"z3-new", func(f string, t int) []string { return []string{"z3-new", fmt.Sprintf("-T:%d", t), f} }, ""},
 	{"cvc5", func(f string, t int) []string {
 		return []string{"cvc5", fmt.Sprintf("--tlimit=%d", t*1000), "--lang=smt2", f}
-	}, "(set-option :produce-models true)\n(set-logic ALL)\n"},
+	}, ""},
+	{"z3-new/seed1", func(f string, t int) []string {
+		return []string{"z3-new", fmt.Sprintf("-T:%d", t), "smt.random_seed=1", f}
+	}, ""},
+	{"z3/seed7", func(f string, t int) []string {
+		return []string{"z3", fmt.Sprintf("-T:%d", t), "smt.random_seed=7", f}
+	}, ""},
+	{"z3-new/nombqi", func(f string, t int) []string {
+		return []string{"z3-new", fmt.Sprintf("-T:%d", t), "smt.mbqi=false", "smt.random_seed=3", f}
+	}, ""},
+	{"cvc5/enum", func(f string, t int) []string {
+		return []string{"cvc5", fmt.Sprintf("--tlimit=%d", t*1000), "--enum-inst", "--lang=smt2", f}
+	}, ""},
 }
 
 // queryText assembles the SMT-LIB script for an obligation.
@@ -159,13 +173,16 @@ func (s *Solver) solve(o *Obligation) *SolveResult {
 	outs := make(chan out, len(solvers))
 	n := 0
 	for _, sp := range solvers {
-		if (s.OnlyZ3 || o.Cover) && sp.name == "cvc5" {
+		if (s.OnlyZ3 || o.Cover) && strings.HasPrefix(sp.name, "cvc5") {
+			continue
+		}
+		if o.Cover && strings.Contains(sp.name, "/") {
 			continue
 		}
 		n++
 		go func(sp solverSpec) {
 			f := f1
-			if sp.name == "cvc5" {
+			if strings.HasPrefix(sp.name, "cvc5") {
 				f = f2
 			}
 			argv := sp.argv(f, s.TimeoutS)
@@ -216,57 +233,13 @@ func (s *Solver) solve(o *Obligation) *SolveResult {
 			} else if res.Status != r.status {
 				res.Status = "disagree"
 			}
-			definitive++
+			if definitive == 0 || strings.SplitN(r.name, "/", 2)[0] != strings.SplitN(res.Solver, "/", 2)[0] {
+				definitive++
+			}
 			if !s.NeedTwo || definitive >= 2 || r.status == "sat" {
 				cancel()
 			}
 		}
-	}
-	if res.Status == "" && !o.Cover {
-		// second stage: quantifier instantiation is heuristic; try other
-		// configurations before giving up (only `unsat` is ever accepted)
-		type alt struct {
-			name string
-			argv []string
-		}
-		alts := []alt{
-			{"z3-new/seed1", []string{"z3-new", fmt.Sprintf("-T:%d", s.TimeoutS), "smt.random_seed=1", f1}},
-			{"z3/seed7", []string{"z3", fmt.Sprintf("-T:%d", s.TimeoutS), "smt.random_seed=7", f1}},
-			{"z3-new/nombqi", []string{"z3-new", fmt.Sprintf("-T:%d", s.TimeoutS), "smt.mbqi=false", "smt.random_seed=3", f1}},
-			{"z3/eager", []string{"z3", fmt.Sprintf("-T:%d", s.TimeoutS), "smt.qi.eager_threshold=100", f1}},
-			{"cvc5/enum", []string{"cvc5", fmt.Sprintf("--tlimit=%d", s.TimeoutS*1000), "--enum-inst", "--lang=smt2", f2}},
-		}
-		aouts := make(chan out, len(alts))
-		actx, acancel := context.WithCancel(context.Background())
-		for _, a := range alts {
-			go func(a alt) {
-				st0 := time.Now()
-				cmd := exec.CommandContext(actx, a.argv[0], a.argv[1:]...)
-				var buf bytes.Buffer
-				cmd.Stdout = &buf
-				cmd.Stderr = &buf
-				_ = cmd.Run()
-				first := strings.TrimSpace(strings.SplitN(buf.String(), "\n", 2)[0])
-				stt := "unknown"
-				if first == "unsat" || first == "sat" {
-					stt = first
-				}
-				aouts <- out{a.name, stt, buf.String(), time.Since(st0).Seconds()}
-			}(a)
-		}
-		for range alts {
-			r := <-aouts
-			res.All[r.name] = r.status
-			if r.status == "unsat" && res.Status == "" {
-				res.Status, res.Solver, res.Seconds = "unsat", r.name, r.secs
-				acancel()
-			}
-			if r.status == "sat" && res.Status == "" {
-				res.Status, res.Solver, res.Seconds, res.Model = "sat", r.name, r.secs, r.text
-				acancel()
-			}
-		}
-		acancel()
 	}
 	if res.Status == "" {
 		res.Status = "unknown"
